@@ -65,3 +65,6 @@
 (declare-fun rvValid (Int) Bool)   ; reflect.Value.IsValid
 (declare-fun slotOf2 (Int Int Int) Int)   ; the location valueGenerator(n, i) yields in frame f
 (declare-fun destValueOf (Int Int Int) Int)   ; what genDestValue(typ, n) yields in frame f
+(declare-fun implementsRT (Int Int) Bool)   ; the interpreter type implements the host interface type (reflect type)
+(declare-fun rvAppendSpreadOp (Int Int) Int)   ; reflect.Append(s, vs...) with vs a []reflect.Value
+(declare-fun rvAppend1Op (Int Int) Int)        ; reflect.Append(s, v)
